@@ -96,6 +96,8 @@ const std::vector<GrammarSpec> &handwritten_bad() {
   v.push_back(textg("bad-syntax", "TERM;\nE : ( \n", {}, 3));
   v.push_back(textg("bad-syntax2", "TERM a=1\nE : a # x (0\n ;\n", {}, 3));
   v.push_back(textg("bad-comment", "TERM;\nE : 'a' /* unfinished\n ;\n", {}, 3));
+  v.push_back(textg("bad-syntax3", "TERM;\nS : 'a' # node 7 (0 ;\n", {}, 3));
+  v.push_back(textg("bad-syntax4", "TERM a=1 b=2;\nS : a b # n 4 (0 1) | b # m 9 ( 0\n", {}, 3));
   // lexical errors: characters that are no token of the description language
   v.push_back(textg("bad-char-at", "TERM;\nE : 'a' @ 'b'\n ;\n", {}, 3));
   v.push_back(textg("bad-char-slash", "TERM a=1;\nS : a / a\n ;\n", {}, 3));
